@@ -63,6 +63,21 @@ where S: Data<Elem = f64>, D: Dimension + RemoveAxis, D::Pattern: ndarray::NdInd
     let (p, qd) = (x.mapv(|v| v.abs() / 8.0), y.mapv(|v| v.abs() / 8.0 + 0.125));
     out.push(("kl_divergence", "approx", dv(p.kl_divergence(&qd))));
     out.push(("cross_entropy", "approx", dv(p.cross_entropy(&qd))));
+    // two non-finite terms of different kinds (a zero and a negative / an infinite element of q, at positions taken from the
+    // logical contents): the sum is NaN in whatever order the terms are visited
+    {
+        let n = x.len();
+        let (k1, k2) = ((x.iter().map(|v| if v.is_nan() { 1 } else { (v.abs() * 4.0) as usize }).sum::<usize>()) % n.max(1), (x.iter().take(3).map(|v| if v.is_nan() { 2 } else { (v.abs() * 4.0) as usize + 1 }).sum::<usize>() * 7 + 1) % n.max(1));
+        if n >= 2 && k1 != k2 {
+            let pp = x.mapv(|v| if v.is_nan() { 0.25 } else { v.abs() / 8.0 + 0.125 });
+            for (name_kl, name_ce, bad) in [("kl_divergence_zero_and_negative_q", "cross_entropy_zero_and_negative_q", -0.25), ("kl_divergence_zero_and_infinite_q", "cross_entropy_zero_and_infinite_q", f64::INFINITY)] {
+                let mut qq = y.mapv(|v| v.abs() / 8.0 + 0.125);
+                for (t, e) in qq.iter_mut().enumerate() { if t == k1 { *e = 0.0; } else if t == k2 { *e = bad; } }
+                out.push((name_kl, "exact", dv(pp.kl_divergence(&qq))));
+                out.push((name_ce, "exact", dv(pp.cross_entropy(&qq))));
+            }
+        }
+    }
     // extrema: value forms exact, index forms judged as "an extremal element of the logical array"
     let mm = |r: Result<&f64, ndarray_stats::errors::MinMaxError>| -> Vec<i64> { match r { Ok(v) => vec![qf(*v)], Err(_) => vec![-1, -1] } };
     out.push(("min", "exact", mm(x.min())));
@@ -71,6 +86,9 @@ where S: Data<Elem = f64>, D: Dimension + RemoveAxis, D::Pattern: ndarray::NdInd
     out.push(("max_skipnan", "exact", vec![qf(*x.max_skipnan())]));
     out.push(("fold_skipnan_sum", "approx", vec![qf(x.fold_skipnan(0.0, |acc, v| acc + v.raw()))]));
     out.push(("fold_axis_skipnan_sum", "approx", x.fold_axis_skipnan(Axis(axis), 0.0, |acc, v| acc + v.raw()).iter().map(|&t| qf(t)).collect()));
+    // an order-sensitive fold (exact on the quarter grid): the lane's elements are combined in logical order along the axis
+    out.push(("fold_axis_skipnan_horner", "exact", x.fold_axis_skipnan(Axis(axis), 0.0, |acc, v| acc * 3.0 + v.raw()).iter().map(|&t| qf(t)).collect()));
+    out.push(("fold_axis_skipnan_last", "exact", x.fold_axis_skipnan(Axis(axis), -99.0, |_, v| v.raw()).iter().map(|&t| qf(t)).collect()));
 }
 
 /// Index-returning routines need the pattern converted to a Vec; done per concrete dimension type.
